@@ -40,6 +40,9 @@ PROPS = {
 }
 
 
+QUICK_SCALE = float(os.environ.get("VERIF_QUICK_SCALE", "2.5"))   # multiplier on the per-shard example counts of the quick tier
+
+
 class Sub:
     """One sub-domain of a property: a Hypothesis strategy or an exhaustive generator."""
 
@@ -55,7 +58,10 @@ class Sub:
 
     def budget(self, tier):
         i = 0 if tier == "quick" else 1
-        return self.n[i], self.shards[i]
+        n = self.n[i]
+        if tier == "quick":
+            n = int(n * QUICK_SCALE)
+        return n, self.shards[i]
 
 
 class HarnessError(Exception):
